@@ -190,7 +190,8 @@ func keyRecordJSON(k *rKey, idPrefix string) map[string]interface{} {
 		}
 
 		if k.PP.Unknown {
-			l = append(l, "signing")
+			// (a purpose nobody knows: a word, the empty string, a known purpose in another letter case)
+			l = append(l, []string{"signing", "", "Authentication"}[(k.ID.Len+len(set))%3])
 		}
 
 		if k.PP.Sixth && len(set) > 0 {
@@ -401,6 +402,10 @@ func rulePatchJSON(c *rCase) (interface{}, string) {
 			m[key] = []interface{}{bad, ok1}
 		case "bad_entry_last":
 			m[key] = []interface{}{ok1, ok2, bad}
+		case "empty_entry_last":
+			m[key] = []interface{}{ok1, ""}
+		case "empty_entry_only":
+			m[key] = []interface{}{""}
 		case "dup":
 			m[key] = []interface{}{ok1, ok2, ok1}
 		case "dup_respelled":
@@ -658,7 +663,7 @@ func randomRule(r *rand.Rand) rCase {
 		return rCase{Kind: "svc", S: &s, Wrap: pickS(r, "add", 0.6, "replace"), Dup: r.Float64() < 0.07}
 	case 7:
 		a := []string{"remove-public-keys", "remove-services", "add-also-known-as", "remove-also-known-as"}[r.Intn(4)]
-		v := []string{"ok_one", "ok_two", "ok_many", "empty", "not_array", "missing_value", "bad_entry_first", "bad_entry_last", "dup", "dup_respelled"}[r.Intn(10)]
+		v := []string{"ok_one", "ok_two", "ok_many", "empty", "not_array", "missing_value", "bad_entry_first", "bad_entry_last", "dup", "dup_respelled", "empty_entry_last", "empty_entry_only"}[r.Intn(12)]
 
 		return rCase{Kind: "list", Action: a, V: v}
 	case 8:
